@@ -240,6 +240,18 @@ def forms_of(rng, g, d, tag):
             shared = io.StringIO(text)
             out.append(("%s StringIO used for the first time" % fmt, lambda sh_=shared, fmt=fmt: (sh_, fmt, None)))
             out.append(("%s the same StringIO used again" % fmt, lambda sh_=shared, fmt=fmt: (sh_, fmt, None)))
+        if fmt == "turtle" and len(g) > 0 and "@prefix ex: <http://ex.org/> ." in text:
+            # the document states its base in a '# baseURI:' header line and writes every ex: term relative to it
+            based = "# baseURI: http://ex.org/\n" + text.replace("@prefix ex: <http://ex.org/> .", "@prefix ex: <> .")
+            bpath = os.path.join(d, "%s_based.ttl" % tag)
+            open(bpath, "w", encoding="utf-8").write(based)
+            out.append(("turtle with '# baseURI:' header and relative IRIs, str", lambda t=based: (t, "turtle", None)))
+            out.append(("turtle with '# baseURI:' header and relative IRIs, bytes, format omitted", lambda t=based: (t.encode("utf-8"), None, None)))
+            out.append(("turtle with '# baseURI:' header and relative IRIs, path", lambda p_=bpath: (p_, None, None)))
+            out.append(("turtle with '# baseURI:' header and relative IRIs, file: URI", lambda p_=bpath: ("file://" + p_, None, None)))
+            out.append(("turtle with '# baseURI:' header and relative IRIs, open binary file", lambda p_=bpath: (lambda fh: (fh, None, fh.close))(open(p_, "rb"))))
+            out.append(("turtle with '# baseURI:' header and relative IRIs, open text file", lambda p_=bpath: (lambda fh: (fh, None, fh.close))(open(p_, "r", encoding="utf-8"))))
+            out.append(("turtle with '# baseURI:' header and relative IRIs, BytesIO", lambda t=based: (io.BytesIO(t.encode("utf-8")), "turtle", None)))
         if detectable:
             out.append(("%s str, format omitted" % fmt, lambda text=text: (text, None, None)))
             out.append(("%s bytes, format omitted" % fmt, lambda text=text: (text.encode("utf-8"), None, None)))
